@@ -400,17 +400,20 @@ def main():
     run.functions = ['internals.math.cov2corr', 'internals.math.corr2cov', 'modeling.calculate_se_from_cov',
                      'calculate_se_from_prec', 'calculate_corr_from_cov', 'calculate_corr_from_prec',
                      'calculate_cov_from_corrse', 'calculate_cov_from_prec', 'calculate_prec_from_cov',
-                     'calculate_prec_from_corrse', 'RandomVariables.join', 'unjoin', '__getitem__', 'subs', '__add__', 'covariance_matrix',
+                     'calculate_prec_from_corrse', 'estimation._scale_matrix', 'estimation._descale_matrix',
+                     'RandomVariables.join', 'unjoin', '__getitem__', 'subs', '__add__', 'covariance_matrix',
                      'get_covariance', 'to_dict/from_dict', 'JointNormalDistribution.create', 'NormalDistribution.create']
     run.bounds = dict(variables='<= 4 (thorough 5) in <= 3 blocks with symbolic entries, IIV/IOV/RUV levels',
                       op_sequences='all sequences of length <= 2 (thorough: + length 3 on <= 3 variables) over join '
                                    '(fill and named), unjoin, selection, subs, +',
                       conversions='cov2corr / corr2cov / calculate_*_from_* on symbolic matrices of size n <= 3 '
                                   '(thorough: the inverse-free ones also n = 4), every branch path explored',
-                      outside='nearest_positive_semidefinite, parameters_sdcorr (symengine substitution), UCP scaling '
-                              '(cholesky, exp) and the numerics of np.linalg.inv (replaced by its contract A.X = X.A = I)')
+                      ucp='_descale_matrix(u0, _scale_matrix(A)) == A for A = L.L^T, n <= 3, all off-diagonal sign patterns',
+                      outside='nearest_positive_semidefinite, parameters_sdcorr (symengine substitution), the theta part '
+                              'of UCP scaling (math.log) and the numerics of np.linalg.inv (replaced by its contract A.X = X.A = I)')
     run.assumptions = ['conversion clause: np.linalg.inv inside pharmpy.modeling.math is replaced by its contract (fresh X with '
-                       'A.X = I and X.A = I); numpy object-array semantics (elementwise operators, np.sqrt -> .sqrt(), '
+                       'A.X = I and X.A = I), np.linalg.cholesky inside pharmpy.modeling.estimation likewise (L lower triangular, '
+                       'positive diagonal, L.L^T = A); numpy object-array semantics (elementwise operators, np.sqrt -> .sqrt(), '
                        'matmul, mask assignment) are trusted; sqrt is exact (s >= 0, s*s = x); float rounding is outside',
                        'oracle = harness table of declared (co)variances keyed by variable name',
                        'newly created covariances (fill value / new symbols) are unconstrained',
